@@ -2,7 +2,7 @@
 import ast
 
 from ..src import AnalysisError, unparse
-from ..syminterp import SymInterp, Sym, Blob
+from ..syminterp import SymInterp, Sym, Blob, OpenSym
 
 MP = "renormalizer/mps/mp.py"
 SVDQN = "renormalizer/mps/svd_qn.py"
@@ -62,8 +62,8 @@ def threshold_count(chk, src, rule):
 
         def __lt__(self, o):
             return Sym(f"mask[{self._name} < {o!r}]")
-    it = SymInterp(src, None, {"np": Sym("np", sum=lambda m: Sym(f"count({m!r})"), linalg=Sym("linalg", norm=lambda x: Sym(f"norm2({x!r})"))),
-                               "scipy": Sym("scipy", linalg=Sym("linalg", norm=lambda x: Sym(f"norm2({x!r})"))), "int": lambda x: x})
+    it = SymInterp(src, None, {"np": OpenSym("np", sum=lambda m: Sym(f"count({m!r})"), linalg=OpenSym("linalg", norm=lambda x: Sym(f"norm2({x!r})"))),
+                               "scipy": OpenSym("scipy", linalg=OpenSym("linalg", norm=lambda x: Sym(f"norm2({x!r})"))), "int": lambda x: x})
     out = it.call_function(fi, [Sym("cfg", threshold=Sym("threshold")), Sig("sigma")])
     chk.ob(rule, "_threshold_m_trunc", repr(out) == "count(mask[(sigma)/(norm2(sigma)) > threshold])", fi.where, repr(out), "count(sigma / ||sigma||_2 > threshold)", line=fi.node.lineno,
            detail="the threshold criterion keeps the singular values whose normalised magnitude is above the threshold (normalisation by the 2-norm of the same spectrum, strict comparison, count)")
@@ -78,7 +78,7 @@ def qn_mask_and_outer(chk, src, rule):
             return Sym(f"eq({self._name}, {o!r})")
 
         __hash__ = Sym.__hash__ if hasattr(Sym, "__hash__") else None
-    it = SymInterp(src, None, {"np": Sym("np", all=lambda m, axis=None: Sym(f"all({m!r}, axis={axis})"), any=lambda m, axis=None: Sym(f"any({m!r}, axis={axis})"), array=lambda x: x)})
+    it = SymInterp(src, None, {"np": OpenSym("np", array=lambda x: x)})
     out = it.call_function(gm, [QM("qnmat"), Sym("qntot")])
     chk.ob(rule, "get_qn_mask", repr(out) == "all(eq(qnmat, qntot), axis=-1)", gm.where, repr(out), "all(qnmat == qntot, axis=-1)", line=gm.node.lineno,
            detail="an element is allowed iff every conserved quantity of its label equals the total; `any` or another axis admits elements outside the sector")
